@@ -428,6 +428,7 @@ pub fn run(args: &Args) {
 	part_a(&mut s, &mut r, args);
 	part_semi(&mut s, &mut r, args);
 	let covered = crate::c07::part_b(&mut s, &mut r, args);
+	part_x(&mut s, &mut r, args);
 	part_stress(&mut s, args);
 	let in_repo = kinds_in_repo();
 	let uncovered: Vec<String> = in_repo.iter().filter(|k| !covered.contains(*k)).cloned().collect();
@@ -1387,4 +1388,747 @@ pub fn part_b(s: &mut Session, r: &mut Rng, args: &Args) -> BTreeSet<String> {
 	}
 	let _ = (Capacities::default(), MainTrackBuilder::new());
 	covered
+}
+
+// ------------------------------------------------------------------------------------------
+// (x) the multi-kind layer on real handles (model: coq/theories/C07/Multi.v)
+// ------------------------------------------------------------------------------------------
+// A history is a list of intervals; an interval is the list of handle calls made between two
+// callbacks.  For every history:
+//   X-model   the handle-visible playback states (and, for a playing static sound, the position in
+//             whole seconds) after every callback are compared with the Coq model (`CMulti`);
+//   X-mirror  the same prediction computed here (Rust mirror of `multi_state_is_composition` +
+//             `playback_commands_table`): per interval, the last command of each kind, applied in
+//             the order of `read_commands`; quiet callbacks change nothing;
+//   X-twin    the run is observably identical (states, output bits, positions) to the twin in which
+//             the commands of the interval are handed over one kind at a time, in the code's order,
+//             each followed by its own `on_start_processing` (so every reader holds at most one
+//             command whenever it is read): "the state reached by applying each kind once in the
+//             code's order", then nothing more;
+//   X-abs     resources that are not advancing (sound on a paused track, on a sub-track of a paused
+//             track, paused itself, waiting for its start time, on a track waiting to resume, played
+//             on an already paused track): every command still takes effect at the next callback,
+//             exactly once (relative seeks issued in different intervals add up).
+const LONG_NS: i64 = 10_000_000_000;
+
+#[derive(Clone, Copy, Debug, PartialEq, Eq)]
+enum Cmd {
+	Volume(i64),
+	Rate(i64),
+	Pan(i64),
+	Loop(i64),
+	Pause(i64),
+	Resume(i64),
+	ResumeAt(i64),
+	Stop(i64),
+	SeekBy(i64),
+	SeekTo(i64),
+	TVolume(i64),
+	TPause(i64),
+	TResume(i64),
+	TResumeAt(i64),
+	MainVolume(i64),
+}
+impl Cmd {
+	/// (resource: 0 main track, 1 sub-track, 2 sound; kind index in the resource's `read_commands`)
+	fn slot(&self) -> (u8, usize) {
+		match self {
+			Cmd::MainVolume(_) => (0, 0),
+			Cmd::TVolume(_) => (1, 0),
+			Cmd::TPause(_) => (1, 1),
+			Cmd::TResume(_) | Cmd::TResumeAt(_) => (1, 2),
+			Cmd::Volume(_) => (2, 0),
+			Cmd::Rate(_) => (2, 1),
+			Cmd::Pan(_) => (2, 2),
+			Cmd::Loop(_) => (2, 3),
+			Cmd::Pause(_) => (2, 4),
+			Cmd::Resume(_) | Cmd::ResumeAt(_) => (2, 5),
+			Cmd::Stop(_) => (2, 6),
+			Cmd::SeekBy(_) => (2, 7),
+			Cmd::SeekTo(_) => (2, 8),
+		}
+	}
+	/// the value of the model's command
+	fn val(&self) -> (i64, i64) {
+		match *self {
+			Cmd::Pause(i) | Cmd::Resume(i) | Cmd::Stop(i) | Cmd::TPause(i) | Cmd::TResume(i) => (LONG_NS + i, 0),
+			Cmd::ResumeAt(i) | Cmd::TResumeAt(i) => (LONG_NS + i, LONG_NS),
+			Cmd::Volume(i) | Cmd::Rate(i) | Cmd::Pan(i) | Cmd::Loop(i) | Cmd::SeekBy(i) | Cmd::SeekTo(i) | Cmd::TVolume(i) | Cmd::MainVolume(i) => (i, 0),
+		}
+	}
+}
+fn long_tween(i: i64) -> Tween {
+	Tween { start_time: StartTime::Immediate, duration: Duration::from_nanos((LONG_NS + i) as u64), easing: Easing::Linear }
+}
+const ZERO_TWEEN: Tween = Tween { start_time: StartTime::Immediate, duration: Duration::ZERO, easing: Easing::Linear };
+fn db_of(i: i64) -> Decibels {
+	Decibels(-((i % 20) as f32) * 0.5)
+}
+
+enum SndH {
+	Static(StaticSoundHandle),
+	Stream(kira::sound::streaming::StreamingSoundHandle<String>),
+}
+impl SndH {
+	fn state(&self) -> i128 {
+		match self {
+			SndH::Static(h) => pstate(h.state()),
+			SndH::Stream(h) => pstate(h.state()),
+		}
+	}
+	fn position(&self) -> f64 {
+		match self {
+			SndH::Static(h) => h.position(),
+			SndH::Stream(h) => h.position(),
+		}
+	}
+	fn issue(&mut self, c: Cmd) {
+		macro_rules! both {
+			($h:ident, $e:expr) => {
+				match self {
+					SndH::Static($h) => $e,
+					SndH::Stream($h) => $e,
+				}
+			};
+		}
+		match c {
+			Cmd::Volume(i) => both!(h, h.set_volume(db_of(i), ZERO_TWEEN)),
+			Cmd::Rate(i) => both!(h, h.set_playback_rate(PlaybackRate(0.5 + (i % 3) as f64 * 0.5), ZERO_TWEEN)),
+			Cmd::Pan(i) => both!(h, h.set_panning(Panning(((i % 5) as f32 - 2.0) / 2.0), ZERO_TWEEN)),
+			Cmd::Loop(i) => both!(h, h.set_loop_region((40.0 + (i % 3) as f64)..(45.0 + (i % 3) as f64))),
+			Cmd::Pause(i) => both!(h, h.pause(long_tween(i))),
+			Cmd::Resume(i) => both!(h, h.resume(long_tween(i))),
+			Cmd::ResumeAt(i) => both!(h, h.resume_at(StartTime::Delayed(Duration::from_nanos(LONG_NS as u64)), long_tween(i))),
+			Cmd::Stop(i) => both!(h, h.stop(long_tween(i))),
+			Cmd::SeekBy(a) => both!(h, h.seek_by(a as f64)),
+			Cmd::SeekTo(p) => both!(h, h.seek_to(p as f64)),
+			_ => unreachable!(),
+		}
+	}
+}
+
+#[derive(Clone, Copy, Debug, PartialEq, Eq)]
+enum Ctx {
+	/// sound on the main track, commands before its first callback
+	MainFresh,
+	/// sound on the main track, playing
+	Main,
+	/// sound on the main track, itself paused
+	SelfPaused,
+	/// sound on a playing sub-track, commands before the first callback of track and sound
+	SubFresh,
+	/// sound on a playing sub-track
+	Sub,
+	/// sound on a paused sub-track
+	SubPaused,
+	/// sound on a playing sub-track of a paused track
+	ParentPaused,
+	/// sound whose start time (10 s from now) has not come
+	WaitStart,
+	/// sound on a sub-track that waits to resume (10 s from now)
+	SubWaiting,
+	/// sound played on an already paused sub-track, commands before its first callback
+	PlayedOnPaused,
+}
+impl Ctx {
+	fn has_track(&self) -> bool {
+		!matches!(self, Ctx::MainFresh | Ctx::Main | Ctx::SelfPaused | Ctx::WaitStart)
+	}
+}
+
+struct World {
+	mgr: Mgr,
+	ptrk: Option<TrackHandle>,
+	trk: Option<TrackHandle>,
+	snd: SndH,
+}
+fn cached_indexed() -> kira::sound::static_sound::StaticSoundData {
+	static CACHE: std::sync::OnceLock<kira::sound::static_sound::StaticSoundData> = std::sync::OnceLock::new();
+	CACHE.get_or_init(|| indexed_sound(SR, 60000)).clone()
+}
+impl World {
+	fn cb(&mut self) -> Vec<f32> {
+		self.mgr.backend_mut().callback(CB_FRAMES, 2)
+	}
+	fn build(ctx: Ctx, stream: bool, start_delay: Option<Duration>) -> World {
+		let mut mgr = simple_manager(SR, IBS);
+		let mut ptrk = None;
+		let mut trk = None;
+		if ctx.has_track() {
+			if ctx == Ctx::ParentPaused {
+				let mut p = mgr.add_sub_track(TrackBuilder::new()).unwrap();
+				trk = Some(p.add_sub_track(TrackBuilder::new()).unwrap());
+				ptrk = Some(p);
+			} else {
+				trk = Some(mgr.add_sub_track(TrackBuilder::new()).unwrap());
+			}
+		}
+		if ctx == Ctx::PlayedOnPaused {
+			trk.as_mut().unwrap().pause(ZERO_TWEEN);
+			for _ in 0..2 {
+				mgr.backend_mut().callback(CB_FRAMES, 2);
+			}
+		}
+		let st = match (ctx, start_delay) {
+			(_, Some(d)) => StartTime::Delayed(d),
+			(Ctx::WaitStart, None) => StartTime::Delayed(Duration::from_nanos(LONG_NS as u64)),
+			_ => StartTime::Immediate,
+		};
+		let snd = if stream {
+			let decoded = std::sync::Arc::new(std::sync::atomic::AtomicUsize::new(0));
+			let data = kira::sound::streaming::StreamingSoundData::from_decoder(IdxDecoder { pos: 0, n: 150000, decoded }).start_time(st);
+			SndH::Stream(match trk.as_mut() {
+				Some(t) => t.play(data).unwrap(),
+				None => mgr.play(data).unwrap(),
+			})
+		} else {
+			let data = cached_indexed().start_time(st);
+			SndH::Static(match trk.as_mut() {
+				Some(t) => t.play(data).unwrap(),
+				None => mgr.play(data).unwrap(),
+			})
+		};
+		let mut w = World { mgr, ptrk, trk, snd };
+		match ctx {
+			Ctx::MainFresh | Ctx::SubFresh | Ctx::PlayedOnPaused => {}
+			_ => {
+				for _ in 0..2 {
+					w.cb();
+				}
+			}
+		}
+		match ctx {
+			Ctx::SelfPaused => {
+				match &mut w.snd {
+					SndH::Static(h) => h.pause(ZERO_TWEEN),
+					SndH::Stream(h) => h.pause(ZERO_TWEEN),
+				}
+				w.cb();
+				w.cb();
+			}
+			Ctx::SubPaused => {
+				w.trk.as_mut().unwrap().pause(ZERO_TWEEN);
+				w.cb();
+				w.cb();
+			}
+			Ctx::ParentPaused => {
+				w.ptrk.as_mut().unwrap().pause(ZERO_TWEEN);
+				w.cb();
+				w.cb();
+			}
+			Ctx::SubWaiting => {
+				w.trk.as_mut().unwrap().pause(ZERO_TWEEN);
+				w.cb();
+				w.cb();
+				w.trk.as_mut().unwrap().resume_at(StartTime::Delayed(Duration::from_nanos(LONG_NS as u64)), ZERO_TWEEN);
+				w.cb();
+				w.cb();
+			}
+			_ => {}
+		}
+		w
+	}
+	fn issue(&mut self, c: Cmd) {
+		match c {
+			Cmd::MainVolume(i) => self.mgr.main_track().set_volume(db_of(i), ZERO_TWEEN),
+			Cmd::TVolume(i) => self.trk.as_mut().unwrap().set_volume(db_of(i), ZERO_TWEEN),
+			Cmd::TPause(i) => self.trk.as_mut().unwrap().pause(long_tween(i)),
+			Cmd::TResume(i) => self.trk.as_mut().unwrap().resume(long_tween(i)),
+			Cmd::TResumeAt(i) => self.trk.as_mut().unwrap().resume_at(StartTime::Delayed(Duration::from_nanos(LONG_NS as u64)), long_tween(i)),
+			c => self.snd.issue(c),
+		}
+	}
+	fn tstate(&self) -> i128 {
+		self.trk.as_ref().map(|t| tstate(t.state())).unwrap_or(-1)
+	}
+}
+
+#[derive(Clone, Debug, PartialEq)]
+struct XObs {
+	snd: i128,
+	trk: i128,
+	pos: f64,
+	out: Vec<u32>,
+}
+type Hist = Vec<Vec<Cmd>>;
+
+/// the run as issued: every interval's commands, then one callback
+fn run_joint(ctx: Ctx, stream: bool, hist: &Hist) -> (i128, i128, Vec<XObs>) {
+	let mut w = World::build(ctx, stream, None);
+	let start = (w.tstate(), w.snd.state());
+	let mut obs = vec![];
+	for iv in hist {
+		for c in iv {
+			w.issue(*c);
+		}
+		let out = w.cb();
+		obs.push(XObs { snd: w.snd.state(), trk: w.tstate(), pos: w.snd.position(), out: out.iter().map(|x| x.to_bits()).collect() });
+	}
+	(start.0, start.1, obs)
+}
+/// the twin: within an interval the commands are handed over one (resource, kind) at a time in the
+/// order in which `on_start_processing` visits them, each followed by its own `on_start_processing`;
+/// one `process` per interval
+fn run_split(ctx: Ctx, stream: bool, hist: &Hist) -> Vec<XObs> {
+	let mut w = World::build(ctx, stream, None);
+	let mut obs = vec![];
+	for iv in hist {
+		let mut slots: Vec<(u8, usize)> = iv.iter().map(|c| c.slot()).collect();
+		slots.sort();
+		slots.dedup();
+		for sl in &slots {
+			for c in iv.iter().filter(|c| c.slot() == *sl) {
+				w.issue(*c);
+			}
+			w.mgr.backend_mut().r().on_start_processing();
+		}
+		if slots.is_empty() {
+			w.mgr.backend_mut().r().on_start_processing();
+		}
+		let mut out = vec![f32::from_bits(0x7FC0_1234); CB_FRAMES * 2];
+		w.mgr.backend_mut().r().process(&mut out, 2);
+		obs.push(XObs { snd: w.snd.state(), trk: w.tstate(), pos: w.snd.position(), out: out.iter().map(|x| x.to_bits()).collect() });
+	}
+	obs
+}
+
+/// Rust mirror of the theorem: the playback state after one interval
+fn mirror_psm(state: i128, cmds: &[Cmd], res: u8) -> i128 {
+	if state == 6 {
+		return 6;
+	}
+	let mine: Vec<&Cmd> = cmds.iter().filter(|c| c.slot().0 == res).collect();
+	let (pause_k, resume_k, stop_k) = if res == 2 { (4, 5, 6) } else { (1, 2, 99) };
+	let last = |k: usize| mine.iter().rev().find(|c| c.slot().1 == k).copied();
+	if last(stop_k).is_some() {
+		5
+	} else if let Some(c) = last(resume_k) {
+		if matches!(c, Cmd::ResumeAt(_) | Cmd::TResumeAt(_)) {
+			3
+		} else {
+			4
+		}
+	} else if last(pause_k).is_some() {
+		1
+	} else {
+		state
+	}
+}
+fn advancing(state: i128) -> bool {
+	matches!(state, 0 | 1 | 4 | 5)
+}
+
+fn hist_text(ctx: Ctx, stream: bool, hist: &Hist) -> String {
+	format!("{} sound, context {:?}, per interval (each followed by one callback of {CB_FRAMES} frames at {SR} Hz): {:?}", if stream { "streaming" } else { "static" }, ctx, hist)
+}
+fn model_term(rk: u8, start: i128, hist: &Hist) -> String {
+	let mut ops = vec![];
+	for iv in hist {
+		for c in iv {
+			let (res, k) = c.slot();
+			let k = match (rk, res) {
+				(4, 1) => k,
+				(4, 2) => k + 3,
+				(3, 1) => k,
+				(0..=2, 2) => k,
+				_ => continue, // a command to a resource the model case does not contain
+			};
+			let (x, y) = c.val();
+			ops.push(format!("({}, {}, {})", k, z(x as i128), z(y as i128)));
+		}
+		ops.push("((-1), 0, 0)".to_string());
+	}
+	format!("CMulti {} {} [{}]", rk, start, ops.join("; "))
+}
+
+struct XOpts {
+	/// compare with the split twin
+	twin: bool,
+	/// the position (whole seconds) is part of the model case
+	pos: bool,
+}
+/// runs one history on the real code and evaluates every monitor; `hist` should end with at least
+/// one quiet interval (the position of callback j is read after callback j+1)
+fn check_hist(s: &mut Session, kind: &str, ctx: Ctx, stream: bool, hist: &Hist, o: &XOpts) {
+	let desc = hist_text(ctx, stream, hist);
+	let (t0, s0, a) = run_joint(ctx, stream, hist);
+	let n = hist.len();
+	// X-mirror
+	let mut st = s0;
+	let mut tt = t0;
+	let mut pos: i128 = 0;
+	let mut heard: i128 = 0;
+	let mut want_s = vec![];
+	let mut want_t = vec![];
+	let mut want_h = vec![];
+	for iv in hist {
+		st = mirror_psm(st, iv, 2);
+		if ctx.has_track() {
+			tt = mirror_psm(tt, iv, 1);
+		}
+		// seeks, in the code's order: seek_by then seek_to, last of each kind
+		if let Some(Cmd::SeekBy(x)) = iv.iter().rev().find(|c| matches!(c, Cmd::SeekBy(_))) {
+			pos += *x as i128;
+		}
+		if let Some(Cmd::SeekTo(x)) = iv.iter().rev().find(|c| matches!(c, Cmd::SeekTo(_))) {
+			pos = *x as i128;
+		}
+		if advancing(st) {
+			heard = pos;
+		}
+		want_s.push(st);
+		want_t.push(tt);
+		want_h.push(heard);
+	}
+	let mut bad = false;
+	for j in 0..n {
+		if a[j].snd != want_s[j] {
+			bad = true;
+			s.fail(
+				desc.clone(),
+				format!(
+					"X-mirror: after callback {} the sound's state() is {} but applying the last command of each kind of every interval once, in the order of read_commands, gives {} (states after each callback: observed {:?}, predicted {:?})",
+					j + 1,
+					a[j].snd,
+					want_s[j],
+					a.iter().map(|x| x.snd).collect::<Vec<_>>(),
+					want_s
+				),
+				None,
+			);
+			break;
+		}
+		if ctx.has_track() && a[j].trk != want_t[j] {
+			bad = true;
+			s.fail(desc.clone(), format!("X-mirror: after callback {} the track's state() is {} but the commands predict {} (observed {:?}, predicted {:?})", j + 1, a[j].trk, want_t[j], a.iter().map(|x| x.trk).collect::<Vec<_>>(), want_t), None);
+			break;
+		}
+	}
+	let mut obs_model: Vec<i128> = vec![];
+	if o.pos {
+		// the position reported after callback j+1 is the frame heard at the end of callback j
+		for j in 0..n - 1 {
+			let got = a[j + 1].pos.round() as i128;
+			if got != want_h[j] && !bad {
+				bad = true;
+				s.fail(
+					desc.clone(),
+					format!("X-mirror: the position reported after callback {} is {:.3} s; the seeks applied once each (seek_by then seek_to, last of each kind per interval) put the sound at {} s (+ at most 0.4 s of playback)", j + 2, a[j + 1].pos, want_h[j]),
+					None,
+				);
+			}
+			obs_model.extend_from_slice(&[a[j].snd, got]);
+		}
+	} else if ctx.has_track() {
+		for x in &a {
+			obs_model.extend_from_slice(&[x.trk, x.snd]);
+		}
+	} else {
+		for x in &a {
+			obs_model.push(x.snd);
+		}
+	}
+	// X-twin
+	if o.twin {
+		let e = run_split(ctx, stream, hist);
+		for j in 0..n {
+			let same_state = a[j].snd == e[j].snd && a[j].trk == e[j].trk;
+			// (the reported position is refreshed by every on_start_processing, BEFORE the commands are
+			// read: after an interval with commands the split twin may report a frame pushed by one of
+			// its earlier hand-overs; after a quiet interval the two must agree to the bit)
+			let same_rest = stream || (a[j].out == e[j].out && (!hist[j].is_empty() || a[j].pos.to_bits() == e[j].pos.to_bits()));
+			if !(same_state && same_rest) {
+				s.fail(
+					desc.clone(),
+					format!(
+						"X-twin: callback {} differs from the run in which the commands of each interval are handed over one kind at a time in the code's order (each with its own on_start_processing): sound state {} vs {}, track state {} vs {}, position {} vs {}, output {}",
+						j + 1,
+						a[j].snd,
+						e[j].snd,
+						a[j].trk,
+						e[j].trk,
+						a[j].pos,
+						e[j].pos,
+						if stream { "not compared" } else if a[j].out == e[j].out { "equal" } else { "different" }
+					),
+					None,
+				);
+				break;
+			}
+		}
+	}
+	// X-model
+	let (rk, start, hm): (u8, i128, Hist) = if o.pos {
+		(1, s0, hist[..n - 1].to_vec())
+	} else if ctx.has_track() {
+		(4, t0 * 10 + s0, hist.clone())
+	} else if stream {
+		(2, s0, hist.clone())
+	} else {
+		(0, s0, hist.clone())
+	};
+	let term = model_term(rk, start, &hm);
+	let key = if hist.iter().any(|iv| !iv.is_empty()) { Some(format!("x:{:?}:{stream}:{term}", ctx)) } else { None };
+	s.case(kind, term, &obs_model, key);
+}
+
+/// a sub-track alone (with a sound on it so that its output is audible): the track's own kinds
+fn check_track_hist(s: &mut Session, kind: &str, paused: bool, hist: &Hist) {
+	let ctx = if paused { Ctx::SubPaused } else { Ctx::Sub };
+	let desc = format!("sub-track ({}), per interval: {:?}", if paused { "paused" } else { "playing" }, hist);
+	let (t0, _s0, a) = run_joint(ctx, false, hist);
+	let e = run_split(ctx, false, hist);
+	let mut tt = t0;
+	let mut want = vec![];
+	for iv in hist {
+		tt = mirror_psm(tt, iv, 1);
+		want.push(tt);
+	}
+	let got: Vec<i128> = a.iter().map(|x| x.trk).collect();
+	if got != want {
+		s.fail(desc.clone(), format!("X-mirror: track states after each callback {:?}, predicted {:?}", got, want), None);
+	}
+	if let Some(j) = (0..a.len()).find(|j| a[*j].trk != e[*j].trk || a[*j].out != e[*j].out || a[*j].snd != e[*j].snd) {
+		s.fail(desc.clone(), format!("X-twin: callback {} differs from the run in which the kinds are handed over one at a time (track state {} vs {}, output {})", j + 1, a[j].trk, e[j].trk, if a[j].out == e[j].out { "equal" } else { "different" }), None);
+	}
+	let term = model_term(3, t0, hist);
+	s.case(kind, term.clone(), &got, Some(format!("xt:{paused}:{term}")));
+}
+
+fn quiet(hist: &mut Hist, n: usize) {
+	for _ in 0..n {
+		hist.push(vec![]);
+	}
+}
+
+/// X-abs: absolute probes in non-advancing contexts
+fn part_x_abs(s: &mut Session) {
+	let ctxs = [Ctx::SelfPaused, Ctx::SubPaused, Ctx::ParentPaused, Ctx::WaitStart, Ctx::SubWaiting, Ctx::PlayedOnPaused];
+	for stream in [false, true] {
+		for ctx in ctxs {
+			// (1) a playback-state command reaches the sound at the next callback
+			for (c, want) in [(Cmd::Stop(1), 5), (Cmd::Pause(2), 1), (Cmd::Resume(3), 4), (Cmd::ResumeAt(4), 3)] {
+				for idle in [0usize, 1, 3] {
+					let mut w = World::build(ctx, stream, None);
+					for _ in 0..idle {
+						w.cb();
+					}
+					let before = w.snd.state();
+					w.issue(c);
+					w.cb();
+					let after1 = w.snd.state();
+					w.cb();
+					let after2 = w.snd.state();
+					s.eval_only("x_abs_state");
+					s.nontrivial.insert(format!("xabs:{ctx:?}:{stream}:{c:?}:{idle}"));
+					if after1 != want || after2 != want {
+						s.fail(
+							format!("{} sound, context {:?}, {idle} callbacks, then {:?}, then two callbacks", if stream { "streaming" } else { "static" }, ctx, c),
+							format!("X-abs: state() was {before}, is {after1} after the next callback and {after2} after one more; the command must have been applied exactly at the next callback (expected {want})"),
+							None,
+						);
+					}
+				}
+			}
+			if stream {
+				continue; // a streaming sound's seeks are read by its decoder, which sleeps while the ring is full
+			}
+			// (2) relative seeks issued in different intervals add up; (3) seek_to then seek_by keep their order
+			let progs: [(&str, Vec<Vec<Cmd>>, f64, bool); 4] = [
+				("seek_by(1), callback, seek_by(1), callback", vec![vec![Cmd::SeekBy(1)], vec![Cmd::SeekBy(1)]], 2.0, true),
+				("seek_by(1), callback, seek_by(2), callback, seek_by(3), callback", vec![vec![Cmd::SeekBy(1)], vec![Cmd::SeekBy(2)], vec![Cmd::SeekBy(3)]], 6.0, true),
+				("seek_to(5), callback, seek_by(2), callback", vec![vec![Cmd::SeekTo(5)], vec![Cmd::SeekBy(2)]], 7.0, false),
+				("seek_by(1), callback, callback, seek_by(1), callback", vec![vec![Cmd::SeekBy(1)], vec![], vec![Cmd::SeekBy(1)]], 2.0, true),
+			];
+			for (name, prog, amount, relative) in progs.iter() {
+				// waiting for the start time: a start time the probe can wait for
+				let delay = if ctx == Ctx::WaitStart { Some(Duration::from_millis(100)) } else { None };
+				let mut w = World::build(ctx, false, delay);
+				let p0 = w.snd.position();
+				for iv in prog {
+					for c in iv {
+						w.issue(*c);
+					}
+					w.cb();
+				}
+				// let it advance
+				match ctx {
+					Ctx::SelfPaused => w.snd.issue_resume_now(),
+					Ctx::SubPaused | Ctx::SubWaiting | Ctx::PlayedOnPaused => w.trk.as_mut().unwrap().resume(ZERO_TWEEN),
+					Ctx::ParentPaused => w.ptrk.as_mut().unwrap().resume(ZERO_TWEEN),
+					_ => {}
+				}
+				let extra = if ctx == Ctx::WaitStart { 12 } else { 4 };
+				for _ in 0..extra {
+					w.cb();
+				}
+				let p1 = w.snd.position();
+				let want = if *relative { p0 + amount } else { *amount };
+				s.eval_only("x_abs_seek");
+				s.nontrivial.insert(format!("xabs_seek:{ctx:?}:{name}"));
+				// up to `extra` callbacks of playback and the resampler's look-ahead: below 0.25 s
+				if !(p1 >= want - 0.01 && p1 <= want + 0.25) {
+					s.fail(
+						format!("static sound, context {:?}: {name}, then the sound is allowed to advance for {extra} callbacks", ctx),
+						format!("X-abs: position() was {p0:.3} s before the commands and is {p1:.3} s afterwards; every command applied exactly once at its next callback gives {want:.3} s (+ at most 0.25 s of playback)"),
+						None,
+					);
+				}
+			}
+		}
+	}
+	// a streaming sound's decoder-side kinds in ONE interval, both issue orders: seek_by then seek_to in
+	// the decoder's order, each once (the position is reported a ring of 16384 frames later)
+	for order in 0..2 {
+		let mut sc = StreamSc::new(0);
+		sc.settle();
+		if order == 0 {
+			sc.h.seek_by(10.0);
+			sc.h.seek_to(30.0);
+		} else {
+			sc.h.seek_to(30.0);
+			sc.h.seek_by(10.0);
+		}
+		for _ in 0..6 {
+			sc.settle();
+			sc.mgr.backend_mut().callback(4096, 2);
+		}
+		let p = sc.h.position();
+		s.eval_only("x_abs_stream_seek");
+		// reported at the start of callback 6: 5 * 4096 frames played, 16384 of them decoded before the
+		// seek: 30 s + 4.1 s (the other order of application would give 44.1 s, twice 40 s or more)
+		if !(p >= 33.5 && p <= 35.0) {
+			s.fail(
+				format!("streaming sound: {} in one interval, then 6 callbacks of 4096 frames", if order == 0 { "seek_by(10), seek_to(30)" } else { "seek_to(30), seek_by(10)" }),
+				format!("X-abs: position() is {p:.3} s; seek_by then seek_to, each applied once at the decoder's next step, gives 30 s + 4.1 s of playback"),
+				None,
+			);
+		}
+	}
+}
+impl SndH {
+	fn issue_resume_now(&mut self) {
+		match self {
+			SndH::Static(h) => h.resume(ZERO_TWEEN),
+			SndH::Stream(h) => h.resume(ZERO_TWEEN),
+		}
+	}
+}
+
+fn part_x(s: &mut Session, r: &mut Rng, args: &Args) {
+	part_x_abs(s);
+	// ---- every ordered pair / triple of distinct commands in ONE interval, then quiet callbacks ----
+	let snd_cmds: Vec<Cmd> = vec![Cmd::Pause(1), Cmd::Resume(2), Cmd::ResumeAt(3), Cmd::Stop(4), Cmd::SeekBy(2), Cmd::SeekTo(20), Cmd::Volume(5), Cmd::Pan(6), Cmd::Rate(7), Cmd::Loop(8)];
+	let stream_cmds: Vec<Cmd> = snd_cmds.iter().copied().filter(|c| !matches!(c, Cmd::SeekBy(_) | Cmd::SeekTo(_) | Cmd::Loop(_))).collect();
+	let tuples = |cmds: &[Cmd], triples: bool| -> Vec<Vec<Cmd>> {
+		let mut out = vec![];
+		for a in cmds {
+			for b in cmds {
+				if a == b {
+					continue;
+				}
+				out.push(vec![*a, *b]);
+				if triples {
+					for c in cmds {
+						if c != a && c != b {
+							out.push(vec![*a, *b, *c]);
+						}
+					}
+				}
+			}
+		}
+		out
+	};
+	let state_kinds = |iv: &Vec<Cmd>| iv.iter().filter(|c| matches!(c.slot(), (2, 4..=6))).count();
+	// static sound
+	for (ctx, triples) in [(Ctx::Main, true), (Ctx::MainFresh, true), (Ctx::SelfPaused, true), (Ctx::Sub, false), (Ctx::SubPaused, false), (Ctx::WaitStart, false)] {
+		for iv in tuples(&snd_cmds, triples) {
+			// quick tier: every pair; every triple with two or more playback-state commands; a third of the others
+			if iv.len() == 3 && state_kinds(&iv) < 2 && !args.thorough && !r.chance(1, 3) {
+				continue;
+			}
+			let pos = matches!(ctx, Ctx::Main | Ctx::MainFresh | Ctx::SelfPaused) && !iv.iter().any(|c| matches!(c, Cmd::Loop(_)));
+			let mut hist = vec![iv];
+			quiet(&mut hist, if pos { 5 } else { 4 });
+			check_hist(s, "x_one_interval_static", ctx, false, &hist, &XOpts { twin: true, pos });
+		}
+	}
+	// streaming sound: the kinds read on the audio thread
+	for (ctx, triples) in [(Ctx::Main, true), (Ctx::MainFresh, false), (Ctx::SelfPaused, false), (Ctx::SubPaused, false)] {
+		for iv in tuples(&stream_cmds, triples) {
+			if iv.len() == 3 && state_kinds(&iv) < 2 && !args.thorough && !r.chance(1, 4) {
+				continue;
+			}
+			let mut hist = vec![iv];
+			quiet(&mut hist, 4);
+			check_hist(s, "x_one_interval_streaming", ctx, true, &hist, &XOpts { twin: true, pos: false });
+		}
+	}
+	// sub-track: its own kinds; and the main track's volume / the track's kinds / the sound's kinds together
+	let trk_cmds = [Cmd::TVolume(3), Cmd::TPause(1), Cmd::TResume(2), Cmd::TResumeAt(4)];
+	for paused in [false, true] {
+		for iv in tuples(&trk_cmds, true) {
+			let mut hist = vec![iv];
+			quiet(&mut hist, 4);
+			check_track_hist(s, "x_one_interval_track", paused, &hist);
+		}
+	}
+	let mixed: Vec<Cmd> = vec![Cmd::MainVolume(9), Cmd::TVolume(3), Cmd::TPause(1), Cmd::TResume(2), Cmd::Pause(1), Cmd::Resume(2), Cmd::Stop(4), Cmd::SeekBy(2), Cmd::Volume(5)];
+	for ctx in [Ctx::Sub, Ctx::SubFresh, Ctx::SubPaused, Ctx::SubWaiting, Ctx::ParentPaused, Ctx::PlayedOnPaused] {
+		for iv in tuples(&mixed, true) {
+			let res: BTreeSet<u8> = iv.iter().map(|c| c.slot().0).collect();
+			if res.len() < 2 || (iv.len() == 3 && !args.thorough && !r.chance(1, 6)) {
+				continue; // (one resource: covered above)
+			}
+			let mut hist = vec![iv];
+			quiet(&mut hist, 4);
+			check_hist(s, "x_one_interval_cross_resource", ctx, false, &hist, &XOpts { twin: true, pos: false });
+		}
+	}
+	// ---- random histories over several intervals, every context -------------------------------------
+	let n = (if args.thorough { 150 } else { 25 }) * args.budget_mul;
+	let all_ctx = [Ctx::MainFresh, Ctx::Main, Ctx::SelfPaused, Ctx::SubFresh, Ctx::Sub, Ctx::SubPaused, Ctx::ParentPaused, Ctx::WaitStart, Ctx::SubWaiting, Ctx::PlayedOnPaused];
+	for ctx in all_ctx {
+		for stream in [false, true] {
+			for _ in 0..(if stream { n / 2 } else { n }) {
+				let pos = !stream && matches!(ctx, Ctx::Main | Ctx::MainFresh | Ctx::SelfPaused);
+				let intervals = r.range(2, 6) as usize;
+				let mut id = 0i64;
+				let mut hist: Hist = vec![];
+				let mut total_seek = 0i64;
+				for _ in 0..intervals {
+					let k = if r.chance(1, 4) { 0 } else { r.range(1, 4) };
+					let mut iv = vec![];
+					for _ in 0..k {
+						id += 1;
+						let c = match r.below(if stream { 7 } else if pos { 9 } else { 10 }) {
+							0 => Cmd::Pause(id),
+							1 => Cmd::Resume(id),
+							2 => Cmd::ResumeAt(id),
+							3 => Cmd::Stop(id),
+							4 => Cmd::Volume(id),
+							5 => Cmd::Pan(id),
+							6 => Cmd::Rate(id),
+							7 => {
+								let a = r.range(1, 3);
+								total_seek += a;
+								Cmd::SeekBy(a)
+							}
+							8 => Cmd::SeekTo(r.range(1, 4) * 10),
+							_ => Cmd::Loop(id),
+						};
+						iv.push(c);
+						if ctx.has_track() && r.chance(1, 4) {
+							id += 1;
+							iv.push(*r.pick(&[Cmd::TPause(id), Cmd::TResume(id), Cmd::TResumeAt(id), Cmd::TVolume(id), Cmd::MainVolume(id)]));
+						}
+					}
+					hist.push(iv);
+				}
+				let _ = total_seek; // at most 6 intervals * 4 commands * 3 s after a seek_to(40): inside the 60 s sound
+				quiet(&mut hist, if pos { 2 } else { 1 });
+				check_hist(s, if stream { "x_random_streaming" } else { "x_random_static" }, ctx, stream, &hist, &XOpts { twin: true, pos });
+			}
+		}
+	}
 }
